@@ -75,6 +75,10 @@ func runSigma(t *rapid.T, test string, in inst, what string, modes []string) {
 		e, c := drawChallenge(t, "e", n)
 		var err error
 		vlib.NoPanic(t, "simulator", func() { err = in.Simulate(seed, e) })
+		if err == errNoSimulator {
+			vlib.Case(test, vlib.Desc(in.Proto(), in.Shape(), in.Group(), "hvzk:no-simulator"), false, "proto="+in.Proto(), "mode=hvzk:no-simulator")
+			return
+		}
 		if err != nil {
 			t.Fatalf("HVZK: %s: RunSimulator(x, e=%x) does not give an accepting transcript: %v", what, e, err)
 		}
